@@ -248,13 +248,20 @@ Record names := mkNames {
   n_fc_r : str;  (* element loaded as FunctionCall by FileInfo::loadFromXml *)
   n_nc_r : str;  (* element loaded as NestedCall by FileInfo::loadFromXml *)
   n_uu_w : str;  (* element written by UnsafeUsage::toString *)
-  n_uu_r : str   (* element accepted by loadUnsafeUsageListFromXml *)
+  n_uu_r : str;  (* element accepted by loadUnsafeUsageListFromXml *)
+  (* is the attribute written through ErrorLogger::toxml? *)
+  e_callid : bool;   (* call-id in CallBase::toBaseXmlString *)
+  e_ncmyid : bool;   (* my-id in NestedCall::toXmlString *)
+  e_uumyid : bool;   (* my-id in UnsafeUsage::toString *)
+  e_uuarg : bool     (* my-argname in UnsafeUsage::toString *)
 }.
 
+Definition wr (esc : bool) (s : str) : str := if esc then toxml s else s.
+
 Definition names_unfixed : names :=
-  mkNames E_FUNCTION_CALL E_FUNCTION_CALL E_FUNCTION_CALL E_NESTED_CALL E_UNSAFE_USAGE E_UNSAFE_USAGE.
+  mkNames E_FUNCTION_CALL E_FUNCTION_CALL E_FUNCTION_CALL E_NESTED_CALL E_UNSAFE_USAGE E_UNSAFE_USAGE false false false false.
 Definition names_fixed : names :=
-  mkNames E_FUNCTION_CALL E_NESTED_CALL E_FUNCTION_CALL E_NESTED_CALL E_UNSAFE_USAGE E_UNSAFE_USAGE.
+  mkNames E_FUNCTION_CALL E_NESTED_CALL E_FUNCTION_CALL E_NESTED_CALL E_UNSAFE_USAGE E_UNSAFE_USAGE false false false false.
 
 Definition nm_okb (nm : names) : bool :=
   str_eqb (n_fc_w nm) (n_fc_r nm) && str_eqb (n_nc_w nm) (n_nc_r nm) &&
@@ -278,8 +285,8 @@ Record ctu := mkCtu { c_fcs : list fcall; c_ncs : list ncall }.
 Record uusage := mkUU { u_myid : str; u_myargnr : Z; u_argname : str; u_loc : loc; u_value : Z }.
 
 (* ------------------------------------------------------------------ writers *)
-Definition base_attrs (id : str) (fname : str) (argnr : Z) (l : loc) : list (str * aval) :=
-  [(A_CALL_ID, AStr id); (A_CALL_FUNCNAME, AStr (toxml fname)); (A_CALL_ARGNR, AInt argnr);
+Definition base_attrs (nm : names) (id : str) (fname : str) (argnr : Z) (l : loc) : list (str * aval) :=
+  [(A_CALL_ID, AStr (wr (e_callid nm) id)); (A_CALL_FUNCNAME, AStr (toxml fname)); (A_CALL_ARGNR, AInt argnr);
    (A_FILE, AStr (toxml (l_file l))); (A_LINE, AInt (l_line l)); (A_COL, AInt (l_col l))].
 
 Definition path_to_xml (p : floc) : xml :=
@@ -288,7 +295,7 @@ Definition path_to_xml (p : floc) : xml :=
 
 Definition fc_to_xml (nm : names) (f : fcall) : xml :=
   Elem (n_fc_w nm)
-       (base_attrs (fc_id f) (fc_fname f) (fc_argnr f) (fc_loc f) ++
+       (base_attrs nm (fc_id f) (fc_fname f) (fc_argnr f) (fc_loc f) ++
         [(A_CALL_ARGEXPR, AStr (toxml (fc_argexpr f))); (A_CALL_VTYPE, AInt (fc_vtype f));
          (A_CALL_VALUE, AInt (fc_value f)); (A_CALL_UFR, AInt (fc_ufr f))] ++
         (if fc_warning f then [(A_WARNING, AStr S_TRUE)] else []))
@@ -296,8 +303,8 @@ Definition fc_to_xml (nm : names) (f : fcall) : xml :=
 
 Definition nc_to_xml (nm : names) (n : ncall) : xml :=
   Elem (n_nc_w nm)
-       (base_attrs (nc_id n) (nc_fname n) (nc_argnr n) (nc_loc n) ++
-        [(A_MY_ID, AStr (nc_myid n)); (A_MY_ARGNR, AInt (nc_myargnr n))])
+       (base_attrs nm (nc_id n) (nc_fname n) (nc_argnr n) (nc_loc n) ++
+        [(A_MY_ID, AStr (wr (e_ncmyid nm) (nc_myid n))); (A_MY_ARGNR, AInt (nc_myargnr n))])
        [].
 
 Definition ctu_to_xml (nm : names) (c : ctu) : list xml :=
@@ -305,7 +312,7 @@ Definition ctu_to_xml (nm : names) (c : ctu) : list xml :=
 
 Definition uu_to_xml (nm : names) (u : uusage) : xml :=
   Elem (n_uu_w nm)
-       [(A_MY_ID, AStr (u_myid u)); (A_MY_ARGNR, AInt (u_myargnr u)); (A_MY_ARGNAME, AStr (u_argname u));
+       [(A_MY_ID, AStr (wr (e_uumyid nm) (u_myid u))); (A_MY_ARGNR, AInt (u_myargnr u)); (A_MY_ARGNAME, AStr (wr (e_uuarg nm) (u_argname u)));
         (A_FILE, AStr (toxml (l_file (u_loc u)))); (A_LINE, AInt (l_line (u_loc u)));
         (A_COL, AInt (l_col (u_loc u))); (A_VALUE, AInt (u_value u))]
        [].
